@@ -365,14 +365,18 @@ def gen_bdesign(r, size=2):
         single = [x for x in md["insts"] if x["n"] == 0 and not x["pair"]]
         msites = []
 
-        def ncsite(named=True):
-            """a no-connect: a new NoConn object, or (shared) one already used in this module"""
-            if msites and r.random() < 0.3:
+        def ncsite(kind=None):
+            """a no-connect: a new NoConn object, or (shared) one already used in this module - preferably on a port of the same kind"""
+            same = [e for e, k in msites if k == kind]
+            if same and r.random() < 0.5:
                 design["marks"].append("shared_nc")
-                return r.choice(msites)
+                return r.choice(same)
+            if msites and r.random() < 0.2:
+                design["marks"].append("shared_nc")
+                return r.choice(msites)[0]
             site[0] += 1
-            e = ["nc", site[0], r.choice([None, None, f"nc{site[0]}"]) if named else None]
-            msites.append(e)
+            e = ["nc", site[0], r.choice([None, None, f"nc{site[0]}"])]
+            msites.append((e, kind))
             return e
 
         def bref_cands(x, k):
@@ -437,7 +441,7 @@ def gen_bdesign(r, size=2):
             for port, k in target_bports(design, x["of"]):
                 u = r.random()
                 if u < 0.13:
-                    x["conns"].append([port, list(ncsite())])
+                    x["conns"].append([port, list(ncsite(("b", k)))])
                 elif is_single and u < 0.2:
                     x["conns"].append([port, None])
                 else:
